@@ -69,7 +69,7 @@ func c10Sequences(t *testing.T) {
 	total := verifrt.Scale(400, 20000)
 	per := (total + nb - 1) / nb
 	verifrt.RunBatches("TestVerifC10", res, nb, 0, 30*time.Minute, "c10.death", func(b int, r *verifrt.Result, cur *verifrt.Current) {
-		dir := vtmp("c10-")
+		dir := vfVtmp("c10-")
 		defer os.RemoveAll(dir)
 		lo, hi := verifrt.CaseRange(check, b, per)
 		for i := lo; i < hi; i++ {
@@ -90,7 +90,7 @@ func c10OneSequence(r *verifrt.Result, rnd *verifrt.Rand, dir string, i int) {
 	r.Eval()
 	path := filepath.Join(dir, fmt.Sprintf("f%d.v1.count", i))
 	defer os.Remove(path)
-	meta := genMeta(rnd)
+	meta := vfGenMeta(rnd)
 	switch rnd.Intn(6) {
 	case 0: // exactly at the cap
 		meta = "K: " + strings.Repeat("v", verifref.MaxMetaLen-4) + "\n"
@@ -243,8 +243,8 @@ func c10OneSequence(r *verifrt.Result, rnd *verifrt.Rand, dir string, i int) {
 		}
 		cf, err := verifref.ParseCounterFile(data)
 		if err != nil {
-			r.Violate("layout:"+layoutClass(err), fmt.Sprintf("after op %d the file violates the v1 layout: %v", op, err),
-				verifrt.CaseReplay(i, map[string]any{"input": saveInput(r, "C10", data)}))
+			r.Violate("layout:"+vfLayoutClass(err), fmt.Sprintf("after op %d the file violates the v1 layout: %v", op, err),
+				verifrt.CaseReplay(i, map[string]any{"input": vfSaveInput(r, "C10", data)}))
 			return
 		}
 		if cf.Meta != strings.TrimRight(meta, "\x00") {
@@ -256,19 +256,19 @@ func c10OneSequence(r *verifrt.Result, rnd *verifrt.Rand, dir string, i int) {
 			return
 		}
 		lastLimit = cf.Limit
-		if d := diffCounts(cf.Counts(), model); d != "" {
+		if d := vfDiffCounts(cf.Counts(), model); d != "" {
 			r.Violate("readback-mismatch", "independent decoder reads back something else than was written: "+d,
-				verifrt.CaseReplay(i, map[string]any{"input": saveInput(r, "C10", data)}))
+				verifrt.CaseReplay(i, map[string]any{"input": vfSaveInput(r, "C10", data)}))
 			return
 		}
 		// the library's own reader sees the file the same way
 		if pf, perr := Parse(path, data); perr != nil {
 			r.Violate("library-rejects-own-file", fmt.Sprintf("after op %d the library's reader rejects the file its writer produced (metadata %d bytes): %v", op, len(meta), perr),
-				verifrt.CaseReplay(i, map[string]any{"input": saveInput(r, "C10", data)}))
+				verifrt.CaseReplay(i, map[string]any{"input": vfSaveInput(r, "C10", data)}))
 			return
 		} else {
 			if !reflect.DeepEqual(pf.Meta, cf.MetaKV) && !(len(pf.Meta) == 0 && len(cf.MetaKV) == 0) {
-				r.Violate("library-reads-other-metadata", fmt.Sprintf("library reader sees metadata %q, the file holds %q", pf.Meta, cf.MetaKV), verifrt.CaseReplay(i, map[string]any{"input": saveInput(r, "C10", data)}))
+				r.Violate("library-reads-other-metadata", fmt.Sprintf("library reader sees metadata %q, the file holds %q", pf.Meta, cf.MetaKV), verifrt.CaseReplay(i, map[string]any{"input": vfSaveInput(r, "C10", data)}))
 				return
 			}
 			want := map[string]uint64{}
@@ -276,7 +276,7 @@ func c10OneSequence(r *verifrt.Result, rnd *verifrt.Rand, dir string, i int) {
 				want[verifref.ExpandStack(n)] = v
 			}
 			if !reflect.DeepEqual(pf.Count, want) && !(len(pf.Count) == 0 && len(want) == 0) {
-				r.Violate("library-reads-other-counts", "library reader and independent decoder disagree on the counters of a file the library wrote", verifrt.CaseReplay(i, map[string]any{"input": saveInput(r, "C10", data)}))
+				r.Violate("library-reads-other-counts", "library reader and independent decoder disagree on the counters of a file the library wrote", verifrt.CaseReplay(i, map[string]any{"input": vfSaveInput(r, "C10", data)}))
 				return
 			}
 			r.Hit("library-readback")
@@ -302,7 +302,7 @@ func c10OneSequence(r *verifrt.Result, rnd *verifrt.Rand, dir string, i int) {
 	}
 }
 
-func layoutClass(err error) string {
+func vfLayoutClass(err error) string {
 	s := err.Error()
 	for _, k := range []string{"not aligned", "outside", "reached twice", "name length", "beyond limit", "page end", "hashes to", "two reachable", "overlap", "limit", "header length", "padding", "prefix", "short"} {
 		if strings.Contains(s, k) {
@@ -328,7 +328,7 @@ func c10Place(t *testing.T) {
 	}
 	bad := 0
 	distinct := 0
-	for hi, meta := range []string{"", "K: v\n", stackMeta(1), strings.Repeat("m", 500)} {
+	for hi, meta := range []string{"", "K: v\n", vfStackMeta(1), strings.Repeat("m", 500)} {
 		hdr, err := mappedHeader(meta)
 		if err != nil {
 			t.Fatal(err)
@@ -383,7 +383,7 @@ func c10Reverse(t *testing.T) {
 	const check = "C10.reverse"
 	res := verifrt.NewResult(check)
 	res.Rule = "files produced by the independent writer (all name shapes, 0..3000 records) are opened by the library: every name must be found with its value, a new counter can be added, and the result still satisfies the strict decoder. distinct = distinct files"
-	dir := vtmp("c10r-")
+	dir := vfVtmp("c10r-")
 	defer os.RemoveAll(dir)
 	n := verifrt.Scale(150, 5000)
 	for i := 0; i < n; i++ {
@@ -391,20 +391,20 @@ func c10Reverse(t *testing.T) {
 			continue
 		}
 		rnd := verifrt.NewRand(verifrt.Seed(), fmt.Sprintf("%s/%d", check, i))
-		data, meta, es := genValidFile(rnd, verifrt.Pick(rnd, []int{3, 30, 300, 1500}))
+		data, meta, es := vfGenValidFile(rnd, verifrt.Pick(rnd, []int{3, 30, 300, 1500}))
 		res.Eval()
 		res.Distinct(verifrt.Hash(data))
-		path := writeTemp(dir, "r.v1.count", data)
+		path := vfWriteTemp(dir, "r.v1.count", data)
 		m, err := openMapped(path, meta)
 		if err != nil {
-			res.Violate("reverse-open", "library cannot open a file written by the independent writer: "+err.Error(), verifrt.CaseReplay(i, map[string]any{"input": saveInput(res, "C10r", data)}))
+			res.Violate("reverse-open", "library cannot open a file written by the independent writer: "+err.Error(), verifrt.CaseReplay(i, map[string]any{"input": vfSaveInput(res, "C10r", data)}))
 			continue
 		}
 		ok := true
 		for _, e := range es {
 			v, _, _, lok := m.lookup(e.Name)
 			if !lok || v == nil || v.Load() != e.Value {
-				res.Violate("reverse-lookup", fmt.Sprintf("library lookup of %q in an independently written file: ok=%v found=%v", trunc40(e.Name), lok, v != nil), verifrt.CaseReplay(i, map[string]any{"input": saveInput(res, "C10r", data)}))
+				res.Violate("reverse-lookup", fmt.Sprintf("library lookup of %q in an independently written file: ok=%v found=%v", vfTrunc40(e.Name), lok, v != nil), verifrt.CaseReplay(i, map[string]any{"input": vfSaveInput(res, "C10r", data)}))
 				ok = false
 				break
 			}
@@ -428,7 +428,7 @@ func c10Reverse(t *testing.T) {
 					for _, e := range es {
 						want[e.Name] = e.Value
 					}
-					if d := diffCounts(cf.Counts(), want); d != "" {
+					if d := vfDiffCounts(cf.Counts(), want); d != "" {
 						res.Violate("reverse-readback", d, verifrt.CaseReplay(i, nil))
 					}
 				}
@@ -445,7 +445,7 @@ func c10Reverse(t *testing.T) {
 	}
 }
 
-func trunc40(s string) string {
+func vfTrunc40(s string) string {
 	if len(s) > 40 {
 		return s[:40] + "…"
 	}
